@@ -54,6 +54,12 @@ func GetSession(sid string) (*Session, bool) {
 		return nil, false
 	}
 
+	// An expired session is dead: refuse it (the GC removes it later) instead of
+	// treating it as "close to expiring" and extending it below.
+	if !time.Now().Before(sess.ExpiresAt) {
+		return nil, false
+	}
+
 	// Extend session expiration if close to expiring
 	if time.Until(sess.ExpiresAt) <= extendThreshold {
 		slog.Debug("Session close to expiring, extending expiration", "session_id", sid, "expires_at", sess.ExpiresAt)
